@@ -8,6 +8,7 @@ package grpc
 //@ smt (define-fun grpcTable ((f Bool) (to Bool) (tmp Bool)) Int (ite tmp 14 (ite to 4 (ite f 13 2))))
 
 //@ func NewErrorResponse
+//@   params err
 //@   property C18
 //@   requires err != nil
 //@   requires asSE(err) != 0 ==> allocated(ptr(*goa.ServiceError, asSE(err)))
@@ -19,12 +20,14 @@ package grpc
 //@   modifies nothing
 
 //@ func NewServiceError
+//@   params resp
 //@   property C18
 //@   requires resp != nil
 //@   ensures* copy: result != nil && fresh(result) && result.Name == resp.Name && result.ID == resp.Id && result.Message == resp.Msg && result.Timeout == resp.Timeout && result.Temporary == resp.Temporary && result.Fault == resp.Fault
 //@   modifies nothing
 
 //@ func EncodeError
+//@   params err
 //@   property C18
 //@   requires err != nil
 //@   requires asSE(err) != 0 ==> allocated(ptr(*goa.ServiceError, asSE(err)))
@@ -42,6 +45,7 @@ package grpc
 //@   ensures* detail: !isStatusErr(err) && select(stDetailN, st) > 0 && asSE(err) != 0 ==> typeIs(d0, *goapb.ErrorResponse) && d0.(*goapb.ErrorResponse).Name == old(se.Name) && d0.(*goapb.ErrorResponse).Id == old(se.ID) && d0.(*goapb.ErrorResponse).Msg == old(se.Message) && d0.(*goapb.ErrorResponse).Fault == old(se.Fault) && d0.(*goapb.ErrorResponse).Timeout == old(se.Timeout) && d0.(*goapb.ErrorResponse).Temporary == old(se.Temporary)
 
 //@ func DecodeError
+//@   params err
 //@   property C18
 //@   requires err != nil ==> !isStatusErr(err) || (errStatus(err) != 0 && errStatus(err) <= alloc())
 //@   requires err != nil && isStatusErr(err) && select(stDetailN, errStatus(err)) > 0 ==> implements(select(stDetail0, errStatus(err)), proto.Message)
